@@ -62,6 +62,9 @@ func (p *ScriptPeer) WriteMsg(code p2p.MsgCode, msg []byte) error {
 	default:
 	}
 	p.mu.Lock()
+	if len(p.out) >= 2000 { // keep the harness's own memory bounded: a block request may be answered with thousands of messages
+		p.out = append(p.out[:0], p.out[1000:]...)
+	}
 	p.out = append(p.out, OutMsg{code, append([]byte(nil), msg...)})
 	serve := p.Serve
 	p.mu.Unlock()
